@@ -1,4 +1,4 @@
-import TracklibVerif.Model.FeaturesCall
+import TracklibVerif.Lemmas.FeaturesCall
 import TracklibVerif.Props.C01World
 /-! # C01 — the list forms of `Track.operate`
 
@@ -10,23 +10,6 @@ namespace TV.C01
 open TV.Features
 variable {V : Type} [Inhabited V] {n : Nat}
 
-section generic
-variable {σ τ : Type} [Tbl σ V] [Tbl τ V] {I : σ → Prop} {ab : σ → τ} [PrimSim I ab]
-
-theorem gsim_stepList (o : Ops V) (ops : List (Op V)) :
-    GSim I ab (fun _ => True) (stepList (σ := σ) o ops) (stepList (σ := τ) o ops) := by
-  induction ops with
-  | nil => exact gsim_pure _ trivial
-  | cons op rest ih => unfold stepList; exact gsim_bind (gsim_step o op) (fun _ _ => ih)
-
-theorem gsim_call (o : Ops V) (c : Call V) :
-    GSim I ab (fun _ => True) (call (σ := σ) o c) (call (σ := τ) o c) := by
-  cases c with
-  | one op => exact gsim_step o op
-  | list ops => exact gsim_stepList o ops
-  | refused => exact gsim_throw _
-
-end generic
 
 /-- L1: every call of the API in any form — single, list form of a void family (stopped by the first exception or not),
 refused list form — keeps the table aligned and does on it exactly what it does on the name ↦ column specification. -/
@@ -48,16 +31,6 @@ def touchedC : Call V → String → Prop
   | .one op, m => touched op m
   | .list ops, m => ∃ op ∈ ops, touched op m
   | .refused, _ => False
-
-theorem frame_stepList (o : Ops V) (ops : List (Op V)) :
-    Frame (fun m => ∃ op ∈ ops, touched op m) (fun _ => True) (stepList (σ := ATab V) o ops) := by
-  induction ops with
-  | nil => exact frame_pure _ trivial
-  | cons op rest ih =>
-    unfold stepList
-    refine frame_bind (P := fun _ => True) (frame_weaken (frame_step o op) (fun m hm => ⟨op, by simp, hm⟩) (fun _ _ => trivial)) ?_
-    intro _ _
-    exact frame_weaken ih (fun m ⟨op', hm', ht⟩ => ⟨op', by simp [hm'], ht⟩) (fun _ h => h)
 
 /-- L3 (no side effects): for a call in any form, returning or raising, a name that none of its positions designates
 reads as before — feature, coordinate, `t`, `idx` — and is listed afterwards iff it was listed before. -/
